@@ -234,6 +234,7 @@ func c02Run(id int, c c02Case) (in string, out string) {
 	mw := r.MemoryWrite(ctx, c.seq)
 	if !panicked && c.fwd == nil {
 		o += c02TaggedRead(r, c, exe, rerr, mr, mw)
+		o += c02ForwardCleared(r, c, exe, rerr)
 	}
 	gline := fmt.Sprintf("G %d %s | rr=[%s] wr=[%s] mr=[%s] mw=[%s] ty=Gen.InstructionType.%s", id, g,
 		regList(r.ReadRegisters()), regList(r.WriteRegisters()), hx.Join32(mr), hx.Join32(mw), r.InstructionType().String())
@@ -429,6 +430,46 @@ func c02TaggedRead(r risc.InstructionRunner, c c02Case, exe risc.Execution, rerr
 	}
 	if hx.Join32(r.MemoryRead(ctx, S)) != hx.Join32(mr) || hx.Join32(r.MemoryWrite(ctx, S)) != hx.Join32(mw) {
 		return " tagged-read=DIFF:addresses"
+	}
+	return ""
+}
+
+// c02ForwardCleared: the decode units clear an instruction's forward slot with Forward(Forward{}) before every use
+// (the slot lives in the parsed program, which several machines may share). After "forward register X := garbage"
+// followed by that clearing call, the instruction must behave exactly as if it had never been forwarded. "" when so.
+func c02ForwardCleared(r risc.InstructionRunner, c c02Case, exe risc.Execution, rerr error) string {
+	regs := r.ReadRegisters()
+	if len(regs) == 0 {
+		return ""
+	}
+	for _, reg := range regs {
+		if reg == risc.Zero {
+			continue
+		}
+		r.Forward(risc.Forward{Register: reg, Value: 0x0f0f0f0f})
+		r.Forward(risc.Forward{})
+	}
+	ctx := risc.NewContext(false, 16, false)
+	for k, v := range c.regs {
+		ctx.Registers[k] = v
+	}
+	var exe2 risc.Execution
+	var err2 error
+	panicked := false
+	func() {
+		defer func() {
+			if rec := recover(); rec != nil {
+				panicked = true
+			}
+		}()
+		exe2, err2 = r.Run(ctx, c.labels, c.pc, c.mem, c.seq)
+	}()
+	if panicked || (err2 != nil) != (rerr != nil) {
+		return " forward-cleared=DIFF:status"
+	}
+	if rerr == nil && (exe2.RegisterChange != exe.RegisterChange || exe2.Register != exe.Register || exe2.RegisterValue != exe.RegisterValue ||
+		hx.MemString(exe2.MemoryChanges) != hx.MemString(exe.MemoryChanges) || exe2.PcChange != exe.PcChange || exe2.NextPc != exe.NextPc) {
+		return fmt.Sprintf(" forward-cleared=DIFF:value=%d,mem=[%s],next=%d", exe2.RegisterValue, hx.MemString(exe2.MemoryChanges), exe2.NextPc)
 	}
 	return ""
 }
